@@ -118,7 +118,7 @@ class RuleResult:
 
 
 def load_known():
-    """KNOWN_FINDINGS.txt: lines `open: property=<id> key=<exact key> :: <what fails>` and
+    """KNOWN_FINDINGS.txt: lines `open: property=<id> key=<exact key> ## <what fails>` and
     `fixed: property=<id> <commit> <what failed>` (fixed lines suppress nothing)."""
     out = {}
     if not os.path.exists(KNOWN):
@@ -129,7 +129,7 @@ def load_known():
             continue
         body = ln[len("open:"):].strip()
         try:
-            head, what = body.split("::", 1)
+            head, what = body.split(" ## ", 1)
             prop, key = head.split("key=", 1)
             prop = prop.strip().split("=", 1)[1]
             out.setdefault(prop, {})[key.strip()] = what.strip()
